@@ -12,8 +12,8 @@ import (
 
 func init() {
 	register(&core.Property{
-		ID:    "C14",
-		Title: "Every Kubernetes event lands in exactly one reconciliation batch",
+		ID:          "C14",
+		Title:       "Every Kubernetes event lands in exactly one reconciliation batch",
 		Explanation: "Static decision of the lock discipline and swap protocol that make the batch hand-over atomic: (1) every function that touches the batch accumulator (`watchers.ch`) or the `run` flag holds `watchers.mu` — it locks at entry with a deferred unlock, or every call-graph edge (VTA, field-sensitive for the handler closures) into it comes from a function that holds the lock; (2) getChangedObjects copies the accumulator and re-initialises it inside one critical section, and the fresh accumulator shares no slice or map with the one handed out — only the two ConfigMap data fields are carried, `New` if present else `Cur`; (3) each event handler records the typed change, the link and the description and notifies on every path; the ConfigMap handler stores the data of every accepted event; (4) Reconcile takes the batch exactly once per run.",
 		NotDecided: []string{
 			"interleavings as executions (the lock analysis is over the call graph, not over schedules)",
